@@ -1032,4 +1032,140 @@ theorem wrun_ok [DecidableEq α] (ops : List (WOp α)) :
     refine ⟨g2, ?_⟩
     rw [List.foldl_cons, ← hsp]; exact h2
 
+/-! ## ioReader / ioWriter -/
+
+/-- invariant of a queue used through ioReader/ioWriter only: everything flushed, flags clean -/
+def QGood (q : Q α) : Prop := AllF q.items ∧ QFlags q
+
+theorem QGood.empty : QGood ({} : Q α) := ⟨by intro x hx; simp at hx, rfl, rfl, rfl, rfl⟩
+
+theorem shape_of_allF {q : Q α} (h : AllF q.items) : Shape q q.flushedBytes [] := by
+  simp only [Shape, List.map_nil, List.append_nil, Q.flushedBytes_of_allF h, List.map_map]
+  have : ∀ l : List (α × Bool), AllF l → l = l.map ((fun x => (x, true)) ∘ fun x => x.fst) := by
+    intro l hl
+    have := allF_map_id hl
+    simpa [Function.comp_def] using this.symm
+  exact this _ h
+
+theorem ioWrite_spec [DecidableEq α] {q : Q α} (hq : QGood q) (p : List α) :
+    QGood (ioWrite q p).1 ∧ (ioWrite q p).1.flushedBytes = q.flushedBytes ++ p ∧
+      (ioWrite q p).2.1 = p.length ∧ (ioWrite q p).2.2 = true := by
+  obtain ⟨hall, hf⟩ := hq
+  have hsh := shape_malloc (shape_of_allF hall) (p.length : Int) p
+  have hsh' : Shape (specStep q (.malloc (p.length : Int) p)).1 q.flushedBytes p := by
+    by_cases hp : (p.length : Int) ≤ 0
+    · have : p = [] := by apply List.eq_nil_of_length_eq_zero; omega
+      rw [if_pos hp] at hsh
+      subst this; exact hsh
+    · rw [if_neg hp] at hsh
+      simpa using hsh
+  obtain ⟨hitems, hfb, _⟩ := flush_q hsh'
+  have hf1 := (flags_simple hf).1 (p.length : Int) p
+  have c1 := (contract_write hf).1 (p.length : Int) p
+  have c2 := (contract_write hf1).2.2.2.2.1
+  refine ⟨⟨?_, ?_⟩, ?_, rfl, ?_⟩
+  · show AllF (specStep (specStep q (.malloc (p.length : Int) p)).1 .flush).1.items
+    rw [hitems]; exact allF_map_true _
+  · obtain ⟨h1, h2, h3, _⟩ := hf1
+    exact ⟨h1, h2, h3, rfl⟩
+  · exact hfb
+  · show (true && Contract q (.malloc (p.length : Int) p) && Contract (specStep q (.malloc (p.length : Int) p)).1 .flush) = true
+    simp [c1, c2]
+
+
+theorem ioRead_spec [DecidableEq α] {q : Q α} (hq : QGood q) (l : Nat) :
+    QGood (ioRead q l).1 ∧ (ioRead q l).2.1 = q.flushedBytes.take l ∧
+      (ioRead q l).1.flushedBytes = q.flushedBytes.drop l ∧
+      ((ioRead q l).2.2.1 = true ↔ (0 < l ∧ q.len = 0)) ∧ (ioRead q l).2.2.2 = true := by
+  obtain ⟨hall, hf⟩ := hq
+  have cl : Contract q .len = true := (contract_read hall hf).2.2.2.2.2.2.2
+  by_cases hl : l = 0
+  · subst hl
+    simp [ioRead, hall, hf, QGood]
+  · by_cases hlen : q.len = 0
+    · have hfb : q.flushedBytes = [] := by
+        apply List.eq_nil_of_length_eq_zero; rw [← Q.len_eq_flushedBytes]; exact hlen
+      have hlt : q.len < l := by omega
+      simp [ioRead, callQ, specStep, ofExpect, hl, hlen, hfb, cl, hall, hf, QGood]
+      omega
+    · generalize hm : (if q.len < l then q.len else l) = m
+      have hm0 : m ≠ 0 := by rw [← hm]; split <;> omega
+      have hmle : m ≤ q.len := by rw [← hm]; split <;> omega
+      have hmll : m ≤ l := by rw [← hm]; split <;> omega
+      have htake : q.flushedBytes.take m = q.flushedBytes.take l := by
+        rw [← hm]; split
+        · rw [List.take_of_length_le (by rw [← Q.len_eq_flushedBytes]; omega),
+            List.take_of_length_le (by rw [← Q.len_eq_flushedBytes]; omega)]
+        · rfl
+      have hdrop : q.flushedBytes.drop m = q.flushedBytes.drop l := by
+        rw [← hm]; split
+        · rw [List.drop_of_length_le (by rw [← Q.len_eq_flushedBytes]; omega),
+            List.drop_of_length_le (by rw [← Q.len_eq_flushedBytes]; omega)]
+        · rfl
+      rcases takeRead_took hall (m : Int) with ⟨_, _, h3⟩ | ⟨bs, h1, h2, h3, _⟩
+      · simp at h3; omega
+      · have h3' : bs.length = m := by simpa using h3
+        have hn : specStep q (.next (m : Int)) = ({ q with items := q.items.drop m }, .exact (.bytes bs)) := by
+          simp only [specStep, h1, h3']
+        have ht : Took q { q with items := q.items.drop m } bs := ⟨by rw [h3'], h2⟩
+        have cn : Contract q (.next (m : Int)) = true := (contract_read hall hf).1 _
+        have cr : Contract { q with items := q.items.drop m } .release = true := by simp [Contract, hf.1]
+        have hout : ioRead q l = ({ q with items := q.items.drop m }, bs, false, true) := by
+          simp [ioRead, callQ, specStep, ofExpect, hl, hm, hm0, cl, cn, cr, h1, h3']
+        rw [hout]
+        have hfb := ht.flushedBytes hall
+        refine ⟨⟨ht.allF hall, ht.flags hf⟩, ?_, ?_, ?_, rfl⟩
+        · simp only; rw [h2, h3', htake]
+        · simp only
+          rw [← hdrop]
+          have : q.flushedBytes.drop m = ({ q with items := q.items.drop m } : Q α).flushedBytes := by
+            conv => lhs; rw [hfb]
+            rw [List.drop_left' h3']
+          exact this.symm
+        · simp [hlen]
+
+
+/-- calls on an ioWriter / ioReader pair sharing one buffer -/
+inductive IOOp (α : Type) where
+  | write (p : List α)
+  | read (l : Nat)
+
+/-- the shared buffer with ghost history: everything written, everything read, all buffer calls in contract -/
+structure IOState (α : Type) where
+  q : Q α := {}
+  written : List α := []
+  read : List α := []
+  inC : Bool := true
+
+def IOState.step [DecidableEq α] (s : IOState α) : IOOp α → IOState α
+  | .write p => { s with q := (ioWrite s.q p).1, written := s.written ++ p, inC := s.inC && (ioWrite s.q p).2.2 }
+  | .read l => { s with q := (ioRead s.q l).1, read := s.read ++ (ioRead s.q l).2.1, inC := s.inC && (ioRead s.q l).2.2.2 }
+
+def IOState.run [DecidableEq α] (s : IOState α) (ops : List (IOOp α)) : IOState α := ops.foldl IOState.step s
+
+def IOGood (s : IOState α) : Prop := QGood s.q ∧ s.read ++ s.q.flushedBytes = s.written ∧ s.inC = true
+
+theorem io_step_ok [DecidableEq α] {s : IOState α} (hs : IOGood s) (op : IOOp α) : IOGood (s.step op) := by
+  obtain ⟨hq, hst, hi⟩ := hs
+  cases op with
+  | write p =>
+    obtain ⟨g, hfb, _, hc⟩ := ioWrite_spec hq p
+    refine ⟨g, ?_, ?_⟩
+    · show s.read ++ (ioWrite s.q p).1.flushedBytes = s.written ++ p
+      rw [hfb, ← List.append_assoc, hst]
+    · show (s.inC && (ioWrite s.q p).2.2) = true
+      rw [hi, hc]; rfl
+  | read l =>
+    obtain ⟨g, hbs, hfb, _, hc⟩ := ioRead_spec hq l
+    refine ⟨g, ?_, ?_⟩
+    · show s.read ++ (ioRead s.q l).2.1 ++ (ioRead s.q l).1.flushedBytes = s.written
+      rw [hbs, hfb, List.append_assoc, List.take_append_drop, hst]
+    · show (s.inC && (ioRead s.q l).2.2.2) = true
+      rw [hi, hc]; rfl
+
+theorem io_run_ok [DecidableEq α] (ops : List (IOOp α)) : ∀ s : IOState α, IOGood s → IOGood (s.run ops) := by
+  induction ops with
+  | nil => intro s hs; exact hs
+  | cons op ops ih => intro s hs; exact ih _ (io_step_ok hs op)
+
 end Netpoll.Adapter
